@@ -41,13 +41,14 @@ PROP = dict(
               "decoders over a CBOR item model) + a go/ast translator that lists every potential crash site of the anchored files, which a Coq "
               "table must classify + structure-aware mutation of VALID files written by the repository's own writers, run through the real "
               "entry points in a child process under ulimit -v with recover(), per-call allocation accounting and a per-input timeout; "
-              "outcome classes compared with the models under the guard flags measured with the refutation witnesses",
+              "outcome classes compared with the models under the guard flags measured with the refutation witnesses; blocktimeindex (*Index).Get itself "
+              "translated on every run (GoLite, an out-of-range index IS a panic of the interpreter) and proved to have the model's outcome class",
     level_text="Theorems (Coq, no axioms), for ALL byte strings / files / (offset,size) arguments / hash values: the repaired compactindexsized.Open "
                "and Header.Load never panic and request at most 2*len+64KiB bytes; GetBucket+Lookup never panic and the eytzinger descent ends "
                "by itself; the incremental header read accepts every header the stream really holds; getDefaultMetadata/GetUint64 never panic "
                "on a value of any length; ReadNodeInfoWithData never panics, requests at most 32 MiB (go-car's cap) and the section loop ends "
                "on every finite stream (each section consumes input); blocktimeindex.FromBytes never panics and requests at most 2*len bytes, "
-               "Index.Get never panics; bucketteer.NewReader requests at most 2*len+1MiB; linkedlog.ReadWithSize never panics and requests at "
+               "Index.Get never panics (model AND the translated Go function: C12_translated_blocktime_Get_never_panics); bucketteer.NewReader requests at most 2*len+1MiB; linkedlog.ReadWithSize never panics and requests at "
                "most min(256 MiB, file length); the data[1] kind dispatch and GetBlock's transaction loop never panic; every fast decoder is "
                "total on every byte string (a panic is possible only at an unguarded assertion site); data-frame collection terminates (C14). "
                "For every guard a refutation theorem with concrete witness bytes shows the code WITHOUT the guard panics or requests an "
@@ -84,3 +85,4 @@ PROP = dict(
                  "runtime.maxAlloc = 2^48 (linux/amd64) in the makeslice rule of the block-time model",
                  "the size argument of ReadWithSize and the Size field of index entries are part of the input (allocation is bounded in them)"],
 )
+PROP["trusted"] = ["translator gen/golite.go and the semantics coq/GoLite.v (DESIGN.md section 10a) for the translated (*Index).Get; NewErrSlotOutOfRange is an oracle returning an error value"] + list(PROP.get("trusted", COMMON_TRUSTED))
